@@ -25,7 +25,7 @@ EXPLANATION = (
     "own handling of PeriodIndex/DatetimeIndex inside the calls the library makes; integer overflow of X**2 for huge values."
 )
 # obligations added during the build phase (seeding rounds, twins, mutation analysis)
-ADDED_IN_BUILD = ' Also: VALUES-ONLY - the C10.c obligations of all six detectors (no cache of an earlier call keyed on the index); check_series keeps index names at every call site (sibling agreement); drivers-positional - every value a detection driver returns is an array / list, never a labelled pandas object that `pd.Series(values, index=X.index)` would re-align; AS-2D - the three cases of as_2d_array decided on facts about the rank of the operand as given (a squeezed / reshaped operand has a rank of its own).'
+ADDED_IN_BUILD = ' Also: VALUES-ONLY - the C10.c obligations of all six detectors (no cache of an earlier call keyed on the index); check_series keeps index names at every call site (sibling agreement); drivers-positional - every value a detection driver returns is an array / list, never a labelled pandas object that `pd.Series(values, index=X.index)` would re-align; AS-2D - the three cases of as_2d_array decided on facts about the rank of the operand as given (a squeezed / reshaped operand has a rank of its own). COLUMNS-BY-POSITION (C16.c frame): dense outputs have one column per input column whatever the labels. shape[k >= 1] and tuple-unpacking of .shape of the un-normalised argument count as container-specific uses.'
 EXPLANATION = EXPLANATION + ADDED_IN_BUILD
 
 ASSUMPTIONS = [
@@ -343,14 +343,28 @@ def check_scorers(ctx):
     rule = "C11.a NORMALISE-DOMINATES-USE"
     from .c13 import SCORERS, make_obj
 
-    for pkg, name, width, inner in SCORERS:
+    from . import c01
+    from .common import cuts_sym
 
-        def go(pkg=pkg, name=name, width=width, inner=inner):
-            ex = new_executor(ctx, {AS2D: _as2d_norm}, max_paths=100)
+    flavours = []
+    for pkg, name, width, inner in SCORERS:
+        flavours.append((pkg, name, width, inner, None))
+        if name in c01.PARAM_TABLE and inner is None:
+            flavours.append((pkg, name, width, inner, "fixed-number"))  # the fixed-parameter kernels read the data too
+    for pkg, name, width, inner, pmode in flavours:
+
+        def go(pkg=pkg, name=name, width=width, inner=inner, pmode=pmode):
+            ex = new_executor(ctx, {AS2D: _as2d_norm}, max_paths=200)
 
             def thunk(ex):
-                obj = make_obj(ex, ctx, pkg, name, inner)
-                return call_method(ex, obj, "fit", raw("X"))
+                if pmode is None:
+                    obj = make_obj(ex, ctx, pkg, name, inner)
+                else:
+                    cls_ = ctx.P.public_class(pkg, name)
+                    obj = ex.new_object(cls_, c01.make_param(ex, c01.PARAM_TABLE[name], pmode), {})
+                call_method(ex, obj, "fit", raw("X"))
+                # ... and what evaluate reads is the normalised copy, not the container as it was handed in (self._X)
+                return call_method(ex, obj, "evaluate", cuts_sym(ex, width))
 
             pending = None
             try:
@@ -370,9 +384,9 @@ def check_scorers(ctx):
                 ctx.violation(rule, f"{fq}|{src[:40]}", e.loc(), f"the scorer uses its data as a specific container ({what}) before normalising it with as_2d_array / np.asarray", found=src)
             if not uses:
                 ok = any(p.outcome == "return" for p in paths)
-                ctx.check(ok, rule, f"{name}.fit", cls.module.relpath, "fit normalises its data (np.asarray via as_2d_array) before any container-specific use", found=[(p.outcome, p.exc.exc_name if p.exc else "") for p in paths][:3])
+                ctx.check(ok, rule, f"{name}.fit" + (f"[{pmode}]" if pmode else ""), cls.module.relpath, "fit normalises its data (np.asarray via as_2d_array) before any container-specific use, and evaluate reads the normalised copy only", found=[(p.outcome, p.exc.exc_name if p.exc else "") for p in paths][:3])
 
-        ctx.guard(rule, name, go)
+        ctx.guard(rule, name + (f"[{pmode}]" if pmode else ""), go)
 
 
 def check_converters(ctx):
